@@ -1522,6 +1522,15 @@ def k_poly1305(repo):
     out += translate_region(src, "finalize", fns, consts, start="let mut h0 = self.h[0];", stop="output[0..8]", lean_name="finish",
                             params=[], pre={"self_h": fields["h"], "self_pad": fields["pad"]}, rename={},
                             outputs=["h0", "h1"]) + "\n"
+    # `update`: where the run of whole blocks ends in the (rest of the) input — the one length computation of the buffering code
+    _, _, ub = find_fn(src, "update")
+    mm = re.search(r"let\s+full_blocks_end\s*=\s*([^;]+);", ub)
+    if not mm:
+        fail("poly1305 update: `let full_blocks_end = …;` not found")
+    cx = Ctx(fns, consts)
+    cx.types["m_len"] = "usize"
+    e = subst_call(parse_expr(mm.group(1)), "m.len()", "m_len")
+    out += "/-- `update`: `let full_blocks_end = %s;` with `m.len()` as the parameter -/\ndef update_full_blocks_end (m_len : Nat) : Nat :=\n  %s\n\n" % (mm.group(1).strip(), ex(e, cx, "usize"))
     return out + "end DryocVerif.Gen.Poly1305\n"
 
 
